@@ -12,7 +12,7 @@ use serde_json::Value;
 pub fn def() -> PropDef {
     PropDef {
         id: "C03",
-        rule: "inputs: valid chunks (any known device, chip, flags, header fields; payload 1..4096 bytes in quick, up to 65535 in thorough, with zeros and trailing zeros) with 0-3 one-rule mutations and byte edits -> reference validator (own bitwise CRC-32C) must agree, accepted chunks must re-encode to the input; plus for every accepted chunk: every single-bit flip (all positions up to 4 KiB chunks, all header/CRC/tail positions + 4096 sampled beyond), sampled 2- and 3-bit flips biased to the header/payload/CRC borders, and a burst (first and last bit set, random interior, length 2..=32, wire bit order: bytes ascending, LSB first) at every bit offset -> each mutant must be rejected; non-trivial = a mutant of an accepted chunk, distinct by (size class, region of first flipped bit, fault class, chunk hash); diff cases: accepted or rejected with <= 1 mutation",
+        rule: "inputs: valid chunks (any known device, chip, flags, header fields; payload 1..4096 bytes in quick, up to 65535 in thorough, with zeros and trailing zeros; plus, in both tiers, one chunk of each of 44 payload lengths around 2^k and at the top of the 16-bit length field, 65519..=65535) with 0-3 one-rule mutations and byte edits -> reference validator (own bitwise CRC-32C) must agree, accepted chunks must re-encode to the input; plus for every accepted chunk: every single-bit flip (all positions up to 4 KiB chunks, all header/CRC/tail positions + 4096 sampled beyond), sampled 2- and 3-bit flips biased to the header/payload/CRC borders, and a burst (first and last bit set, random interior, length 2..=32, wire bit order: bytes ascending, LSB first) at every bit offset -> each mutant must be rejected; non-trivial = a mutant of an accepted chunk, distinct by (size class, region of first flipped bit, fault class, chunk hash); diff cases: accepted or rejected with <= 1 mutation",
         assumptions: &[
             "burst bit order is the CRC's transmission order (LSB of each byte first); in MSB-first numbering a 32-bit window is not a CRC burst and no guarantee exists",
             "CRC-32C has Hamming distance >= 4 at these lengths and detects every burst of <= 32 bits, so one accepted mutant is a genuine violation",
@@ -180,8 +180,38 @@ fn fault_cases(tier: Tier) -> impl Strategy<Value = FaultCase> {
     (gen::chunk_valid_with(payload), any::<u64>()).prop_map(|(chunk, fault_seed)| FaultCase { chunk, fault_seed })
 }
 
+/// Payload lengths at which a width, rounding or saturation mistake would show:
+/// around every power of two that matters and the top of the 16-bit length field.
+const SIZE_CLASSES: [usize; 44] = [
+    1, 2, 3, 4, 5, 7, 8, 9, 15, 16, 17, 252, 253, 254, 255, 256, 257, 1399, 1400, 1401, 4095, 4096, 4097, 32_766, 32_767, 32_768, 32_769, 65_519, 65_520, 65_521, 65_524, 65_525, 65_526, 65_527, 65_528, 65_529, 65_530, 65_531, 65_532,
+    65_533, 65_534, 65_535, 127, 128,
+];
+
+fn size_class_case(i: u64, seed: u64, ev: &mut Ev) -> Outcome {
+    let n = SIZE_CLASSES[i as usize % SIZE_CLASSES.len()];
+    let k = i / SIZE_CLASSES.len() as u64;
+    let payload: Vec<u8> = (0..n as u64).map(|j| (mix(seed ^ i, j / 8) >> (8 * (j % 8))) as u8).collect();
+    let chunk = ChunkModel {
+        device_id: oracles::boards::PADWING_BOARDS[(mix(seed, i) % 71) as usize].2,
+        packet_seq: mix(seed, i + 1) as u32,
+        channel_seq: mix(seed, i + 2) as u16,
+        channel_id: (k % 4) as u8,
+        flags: (k % 2) as u8,
+        chunk_id: mix(seed, i + 3) as u16,
+        payload,
+        length_field: None,
+        padding: None,
+        header_crc_xor: 0,
+        payload_crc_xor: 0,
+    };
+    ev.label(&format!("payload-length:{n}"));
+    fault_case(&FaultCase { chunk, fault_seed: mix(seed, i + 4) }, ev)
+}
+
 fn run(r: &Run) {
     let t = r.tier;
+    let seed = r.seed;
+    r.enumerate("size_classes", SIZE_CLASSES.len() as u64 * t.pick(1, 8), move |i, ev| size_class_case(i, seed, ev));
     r.prop("chunk_diff", t.pick(150_000, 6_000_000), gen::chunk_case, diff_case);
     r.prop("chunk_faults", t.pick(1_200, 40_000), move || fault_cases(t), fault_case);
 }
@@ -190,6 +220,7 @@ fn replay(_r: &Run, check: &str, case: &Value) -> Option<Outcome> {
     Some(match check {
         "chunk_diff" => replay_case(case, diff_case),
         "chunk_faults" => replay_case(case, fault_case),
+        "size_classes" => size_class_case(case["index"].as_u64().unwrap_or(0), _r.seed, &mut Ev::default()),
         "chunk_bytes" => replay_case(case, |b: &Vec<u8>, ev| diff_outcome(detdiff::chunk(b), ev, "chunk").map(|_| ())),
         _ => return None,
     })
